@@ -43,6 +43,7 @@ pub struct Contract {
 pub fn registry() -> Vec<Contract> {
     let mut v = Vec::new();
     v.extend(crate::bitfield::verif_exec::contracts());
+    v.extend(crate::oplog::verif_exec::contracts());
     v.extend(crate::verif_exec_e2e::contracts());
     v
 }
